@@ -66,10 +66,26 @@ class Unit:
         with their attributes) and the members whose header is listed in
         extra_members (associated consts / types)."""
         s = self.src(rel)
-        a, b = s.item_span(header_regex(impl_header))
-        bo = s.body_open(s.find_header(header_regex(impl_header)))
-        if s.code[bo] != '{':
-            raise ExtractError('impl without body: ' + impl_header)
+        # several impl blocks may share the header (e.g. a cfg-gated one): take the one that
+        # contains the requested functions
+        cands = []
+        for hm in re.finditer(header_regex(impl_header) + r'\s*(?:where[^{]*)?\{', s.code):
+            cbo = s.body_open(hm.start())
+            cbc = s.match_close(cbo)
+            if all(re.search(r'(?<![A-Za-z0-9_])fn\s+' + re.escape(fn) + r'(?![A-Za-z0-9_])', s.code[cbo:cbc]) for fn in fn_names):
+                cands.append((hm.start(), cbo, cbc))
+        if len(cands) != 1:
+            raise ExtractError('%s: %d impl blocks `%s` contain %s' % (rel, len(cands), impl_header, list(fn_names)))
+        pos, bo, bc_ = cands[0]
+        a = s.text.rfind('\n', 0, pos) + 1
+        while a > 0:
+            prev = s.text.rfind('\n', 0, a - 1) + 1
+            line = s.text[prev:a - 1].strip()
+            if line.startswith('#[') or line.startswith('//'):
+                a = prev
+            else:
+                break
+        b = bc_ + 1
         head = s.text[a:bo + 1]
         parts = [head]
         origin_lines = []
@@ -265,6 +281,19 @@ class Unit:
     def body_start(self, fnref, text):
         s, p, bo, bc = self._fn_span(fnref)
         self.text = self.text[:bo + 1] + '\n' + text + self.text[bo + 1:]
+
+    def stub_fn(self, fnref):
+        """Keep the real signature of a function of /repo but drop its body (external_body): the
+        function is then represented by the contract given to it, which must be justified elsewhere
+        (another unit or a Kani harness) - recorded in rule_hits and in the trusted base."""
+        s, p, bo, bc = self._fn_span(fnref)
+        ls = self.text.rfind('\n', 0, p) + 1
+        indent = self.text[ls:p]
+        # the attribute goes before visibility qualifiers on the same line
+        self.text = self.text[:bo] + '{ unimplemented!() }' + self.text[bc + 1:]
+        line_start = ls
+        self.text = self.text[:line_start] + re.match(r'\s*', indent).group(0) + '#[verifier::external_body]\n' + self.text[line_start:]
+        self.rule_hits.append(('stub:' + self.fnkey(fnref), 1))
 
     def body_end(self, fnref, text):
         s, p, bo, bc = self._fn_span(fnref)
